@@ -7,6 +7,9 @@ output.
 -/
 import Reamber.Lemmas.O2JTime
 import Reamber.Lemmas.O2JPair
+import Reamber.Lemmas.O2JHeader
+import Reamber.Lemmas.O2JFrame
+import Reamber.Lemmas.O2JRead
 import Reamber.Spec.Timing
 
 namespace Reamber.O2J
@@ -31,7 +34,7 @@ def derivedLayout : List (String × Nat × Char × Nat × String) :=
 /-- **The 300-byte header is laid out as the format says**: the three generated `BYTE_*` tables together with the
 generated assignments of `read_meta` give every attribute the format's offset, type, count and shape; the sizes sum to
 300; every entry's element width is its struct code's width.  Re-checked whenever the source tables change. -/
-theorem header_layout_partial :
+theorem header_table :
     derivedLayout = formatLayout ∧
     O2J.byteSizes.sum = headerSize ∧
     O2J.byteCount.length = 23 ∧ O2J.byteSizes.length = 23 ∧ O2J.byteFormats.length = 23 ∧
@@ -39,15 +42,38 @@ theorem header_layout_partial :
                               && decide (t.2.1 / t.2.2 = codeSize t.1)) = true := by
   decide +kernel
 
-/- `header_layout` is the `_partial` form of the header claim.  FULL STATEMENT (not proved yet):
-     theorem readMeta_eq_specMeta (bs : List Nat) : readMeta bs = specMeta bs
-   i.e. the walk over the generated tables with its running `ix_start`, followed by the generated assignments, returns for
-   EVERY byte string the attributes read directly at the format's declared offsets (and the same error when the string
-   is shorter than 300 bytes).  Proved: the layout the walk implements (offset = running sum of int(size/count)*count,
-   code, count, shape per attribute) IS the format's table, entry widths are the struct codes' widths, sizes sum to 300
-   (`header_layout`, by evaluation of the generated tables).  Missing: the generic induction "walk tbl ix = map (read at
-   offsets tbl ix)" and its fusion with the assignment loop.  Both functions are evaluated by the driver on every
-   generated file and compared with the implementation's header (model: correspondence, spec: specification). -/
+/-- from a table entry and the assignment that takes it to the format's layout row: (name, offset, code, count, shape) -/
+def layoutRow (p : (Char × Nat × Nat) × (String × Nat × String)) : String × Nat × Char × Nat × String :=
+  (p.2.1, p.1.2.2, p.1.1, p.1.2.1, p.2.2.2)
+
+/-- what the generic header lemmas need of the generated tables, by evaluation: non-zero counts, element width = the
+struct code's width, assignments take `meta_fields[0..22]` in order, and entry-by-entry the rows are the format's -/
+theorem header_table_facts :
+    layoutTable.all (fun t => decide (t.2.2 ≠ 0) && decide (t.2.1 / t.2.2 = codeSize t.1)) = true ∧
+    O2J.metaAssign.length = (entries layoutTable 0).length ∧
+    idxFrom 0 O2J.metaAssign = true ∧
+    (entries layoutTable 0).all (fun e => decide (e.2.1 ≠ 0)) = true ∧
+    formatLayout = ((entries layoutTable 0).zip O2J.metaAssign).map layoutRow := by
+  decide +kernel
+
+/-- **The 300-byte header fields are decoded as laid out by the format** — for EVERY byte string: the walk of
+`read_meta` over the generated `BYTE_FORMATS / BYTE_SIZES / BYTE_COUNT` tables with its running `ix_start`, followed by
+the generated assignments, returns exactly the attributes read directly at the format's declared offsets with the
+declared type, count and shape (`Spec.specMeta`) — and the same error when the string is shorter than 300 bytes. -/
+theorem header_layout (bs : List Nat) : readMeta bs = specMeta bs := by
+  obtain ⟨h1, h2, h3, h4, h5⟩ := header_table_facts
+  unfold readMeta specMeta
+  rw [walk_eq (bs.take 300) layoutTable 0 (by
+    intro t ht
+    have := List.all_eq_true.mp h1 t ht
+    simpa using this)]
+  have hf := fuse (bs.take 300) (entries layoutTable 0) [] O2J.metaAssign h2 h3 (by
+    intro e he
+    have := List.all_eq_true.mp h4 e he
+    simpa using this)
+  simp only [List.nil_append] at hf
+  rw [hf, h5, mapE_map]
+  rfl
 
 /-- the channel numbering and note-type bytes the model takes from the source are the format's -/
 theorem channels_tie :
@@ -58,60 +84,7 @@ theorem channels_tie :
     Reamber.Timing.minToMsec = 60000 := by
   decide +kernel
 
-theorem isNoteChannel_eq (ch : Int) : isNoteChannel ch = isColChannel ch := by
-  simp only [isNoteChannel, isColChannel, O2J.colRangeStart, O2J.colRangeStop]
-  by_cases h1 : (2 : Int) ≤ ch <;> by_cases h2 : ch < 9 <;> simp [h1, h2] <;> omega
-
-/-- with those constants the model's event decoders are the specification's (which uses literals) -/
-theorem slotsOf_eq_spec (p : RawPkg) (h : isNoteChannel p.channel = true) : slotsOf p = specSlots p := by
-  have hc : isColChannel p.channel = true := by rw [← isNoteChannel_eq]; exact h
-  have haux : ∀ (m c : Int) (n : Nat) (gs : List (List Nat)) (i : Nat),
-      slotsAux m c n i gs = specSlotsAux m c n i gs := by
-    intro m c n gs
-    induction gs with
-    | nil => intro i; rfl
-    | cons g rest ih =>
-      intro i
-      have hs : slotOf m c n i g = specSlot m c n i g := rfl
-      unfold slotsAux specSlotsAux
-      rw [hs]
-      cases specSlot m c n i g <;> simp [ih]
-  simp only [slotsOf, specSlots, hc, if_true, haux]
-
 /-! ### decoders -/
-
-/-- little-endian bytes of `v` on `k` bytes (what `struct.pack` writes) -/
-def encodeLE : Nat → Nat → List Nat
-  | 0, _ => []
-  | k + 1, v => v % 256 :: encodeLE k (v / 256)
-
-/-- two's-complement bit pattern of an integer on `bits` bits -/
-def toBits (bits : Nat) (n : Int) : Nat := (n % (2 ^ bits : Nat)).toNat
-
-theorem leNat_encodeLE (k : Nat) : ∀ v, v < 256 ^ k → leNat (encodeLE k v) = v := by
-  induction k with
-  | zero => intro v h; simp at h; subst h; rfl
-  | succ k ih =>
-    intro v h
-    simp only [encodeLE, leNat]
-    rw [ih (v / 256) (by rw [Nat.pow_succ] at h; omega)]
-    omega
-
-/-- `unpack("<i", pack("<i", n)) = n` for every 32-bit integer -/
-theorem decodeI32_encode (n : Int) (h1 : -2 ^ 31 ≤ n) (h2 : n < 2 ^ 31) :
-    decodeI32 (encodeLE 4 (toBits 32 n)) = n := by
-  unfold decodeI32
-  rw [leNat_encodeLE 4 _ (by unfold toBits; omega)]
-  unfold toSigned toBits
-  split <;> omega
-
-/-- `unpack("<h", pack("<h", n)) = n` for every 16-bit integer -/
-theorem decodeI16_encode (n : Int) (h1 : -2 ^ 15 ≤ n) (h2 : n < 2 ^ 15) :
-    decodeI16 (encodeLE 2 (toBits 16 n)) = n := by
-  unfold decodeI16
-  rw [leNat_encodeLE 2 _ (by unfold toBits; omega)]
-  unfold toSigned toBits
-  split <;> omega
 
 /-- float32 bits → value: the four bytes of sign `s`, biased exponent `e`, mantissa `m` decode to the IEEE-754 value
 `(-1)^s · (1 + m/2^23) · 2^(e-127)` (normal), `(-1)^s · m · 2^-149` (subnormal / zero), ±inf, NaN (`f32OfParts`) -/
@@ -143,33 +116,8 @@ in any file order. -/
 theorem o2j_times (pkgs : List Pkg) (init : Rat) (hmf : pkgs.any (·.mfrac) = false) (h0 : init ≠ 0) :
     readPkgs pkgs false init =
       .ok ⟨(sortNotes (pkgs.flatMap (·.notes))).map (noteOut init (sortBpms (pkgs.flatMap (·.bpms)))),
-           ⟨0, init, 0⟩ :: (sortBpms (pkgs.flatMap (·.bpms))).map (bpmOut init (sortBpms (pkgs.flatMap (·.bpms))))⟩ := by
-  unfold readPkgs
-  simp only [hmf, Bool.false_eq_true, if_false]
-  rw [if_neg (by intro h; exact h0 h.1)]
-  rw [sweep_table _ _ _ (dedupSort_asc _), sweep_offsets, consumeAll_integ _ _ (sortBpms_sorted _)]
-  have hint : ∀ evs p, integS ⟨0, 0, init⟩ evs p = posTime init evs p := fun _ _ => rfl
-  simp only [hint]
-  rw [mapE_eq_ok_map _ (noteOut init (sortBpms (pkgs.flatMap (·.bpms))))]
-  · simp only [bind, Except.bind]
-    rw [zipBpms_map]
-    rfl
-  · intro n hn
-    have hpos : n.pos ∈ dedupSort ((sortNotes (pkgs.flatMap (·.notes))).map Note.pos ++
-        (sortNotes (pkgs.flatMap (·.notes))).filterMap Note.tailPos) := by
-      rw [mem_dedupSort]; simp only [List.mem_append, List.mem_map]; left; exact ⟨n, hn, rfl⟩
-    unfold timeNote
-    rw [lookupT_map _ _ _ hpos]
-    cases n with
-    | hit s => rfl
-    | hold h t =>
-      have htl : t.pos ∈ dedupSort ((sortNotes (pkgs.flatMap (·.notes))).map Note.pos ++
-          (sortNotes (pkgs.flatMap (·.notes))).filterMap Note.tailPos) := by
-        rw [mem_dedupSort]; simp only [List.mem_append, List.mem_filterMap]; right
-        exact ⟨.hold h t, hn, rfl⟩
-      simp only []
-      rw [lookupT_map _ _ _ htl]
-      rfl
+           ⟨0, init, 0⟩ :: (sortBpms (pkgs.flatMap (·.bpms))).map (bpmOut init (sortBpms (pkgs.flatMap (·.bpms))))⟩ :=
+  readPkgs_eq pkgs init hmf h0
 
 /-- the error branches are covered, not totalised: a missing package (`None`) and a measure-fraction package raise
 `AttributeError`; a header tempo of 0 raises `ZeroDivisionError` as soon as there is anything to time -/
@@ -209,31 +157,165 @@ theorem hold_pairing (slots : List Slot) (buf : Buf) (revPre : List Slot) (h : B
     | .error e => pairFrom revPre slots = .error e :=
   foldBuf_pairFrom slots buf revPre h
 
-/-- what a note package contributes is the pairing of its decoded slots (decoded with the format's constants) -/
-theorem decodePkg_notes (p : RawPkg) (buf : Buf) (revPre : List Slot) (h : BufRep buf revPre)
-    (hc : isNoteChannel p.channel = true) :
-    match decodePkg p buf with
-    | .ok (pk, b) => pairFrom revPre (specSlots p) = .ok pk.notes ∧ pk.slots = specSlots p ∧ pk.bpms = [] ∧
-        pk.mfrac = false ∧ BufRep b ((specSlots p).reverse ++ revPre)
-    | .error e => pairFrom revPre (specSlots p) = .error e := by
-  unfold decodePkg
-  simp only [hc, if_true]
-  have := foldBuf_pairFrom (slotsOf p) buf revPre h
-  rw [slotsOf_eq_spec p hc] at this ⊢
-  cases hf : foldBuf buf (specSlots p) with
-  | error e => rw [hf] at this; simp only [bind, Except.bind]; exact this
-  | ok r =>
-    obtain ⟨ns, b⟩ := r
-    rw [hf] at this
-    simp only [bind, Except.bind]
-    refine ⟨this.1, ?_, ?_, ?_, this.2⟩ <;> first | rfl | trivial
-
 /-- non-vacuity: a head replaced by a second head, closed in a later package; a hit in between on another column -/
 example :
     (foldBuf [] [⟨0, 0, 4, 8, .head⟩, ⟨1 / 2, 0, 4, 8, .head⟩, ⟨1 / 2, 1, 4, 8, .hit⟩, ⟨7 / 4, 0, 4, 8, .tail⟩]).toOption.map (·.1)
       = some [.hit ⟨1 / 2, 1, 4, 8, .hit⟩, .hold ⟨1 / 2, 0, 4, 8, .head⟩ ⟨7 / 4, 0, 4, 8, .tail⟩] := by decide +kernel
 example : (match foldBuf [] [⟨0, 0, 4, 8, .tail⟩] with | .error .key => true | _ => false) = true := by decide +kernel
 
+
+
+/-! ### the whole reader -/
+
+theorem headerTempo_some (hdr : List (String × MetaVal)) (q : Rat) (h : headerTempo hdr = some q) :
+    lookupMeta hdr "bpm" = some (.flt (.fin q)) := by
+  unfold headerTempo at h
+  split at h
+  · rename_i q' heq; cases h; exact heq
+  · cases h
+
+/-- **`O2JMapSet.read` meets its specification.**  For every well-formed byte string (≥ 300 bytes; the header's
+package counts can be framed; header tempo finite and ≠ 0; per difficulty: no measure-fraction package, finite tempo
+floats, every tail paired, no head left open) the model of `O2JMapSet.read` returns exactly `Spec.specSet`: the header
+attributes read at the format's declared offsets, and ONE level per package-count entry — also for a count of 0 —
+each holding the notes of its own note channels in the right column, long notes paired head to tail across packages,
+every note, long-note end and tempo event at `posTime` of its measure position.
+Assembled from `header_layout`, `readLevel_spec` (framing + `hold_pairing` + decoders with the generated constants),
+`o2j_times`. -/
+theorem read_spec (bs : List Nat) (h : wellFormed bs = true) : readFile bs = specSet bs := by
+  unfold wellFormed at h
+  unfold readFile specSet
+  rw [header_layout]
+  cases hS : specMeta bs with
+  | error e => rw [hS] at h; cases h
+  | ok hdr =>
+    rw [hS] at h
+    simp only [] at h
+    simp only [bind, Except.bind]
+    cases hF : frameLevels (packageCounts hdr) (List.drop headerSize bs) with
+    | none => rw [hF] at h; cases h
+    | some lvls =>
+      cases hT : headerTempo hdr with
+      | none => rw [hF, hT] at h; cases h
+      | some q =>
+        rw [hF, hT] at h
+        simp only [Bool.and_eq_true, decide_eq_true_eq] at h
+        have hsp := readLevels_spec q h.1 (packageCounts hdr) (List.drop 300 bs) [] lvls bufRep_nil hF h.2
+        rw [headerTempo_some hdr q hT]
+        simp only []
+        cases hr : readLevels (packageCounts hdr) (List.drop 300 bs) [] with
+        | error e =>
+          rw [hr] at hsp
+          simp only [bind, Except.bind] at hsp
+          simp only [← hsp]
+        | ok pls =>
+          rw [hr] at hsp
+          simp only [bind, Except.bind] at hsp
+          simp only [hsp]
+
+/-- a complete .ojn byte string (generated by the harness: header tempo 120; difficulty counts [0, 7, 0]; two tempo
+events, a tempo event after the last note, a long note across two packages; three trailing bytes) -/
+def sampleOjn : List Nat :=
+    [7, 0, 0, 0, 111, 106, 110, 0, 154, 153, 57, 64, 3, 0, 0, 0, 0, 0, 240, 66, 1, 0, 2, 0, 3, 0, 0, 0, 1, 0, 0,
+    0, 2, 0, 0, 0, 3, 0, 0, 0, 4, 0, 0, 0, 5, 0, 0, 0, 6, 0, 0, 0, 7, 0, 0, 0, 8, 0, 0, 0, 9, 0, 0, 0, 0, 0, 0,
+    0, 7, 0, 0, 0, 0, 0, 0, 0, 29, 0, 7, 0, 103, 103, 103, 103, 103, 103, 103, 103, 103, 103, 103, 103, 103,
+    103, 103, 103, 103, 103, 103, 103, 5, 0, 0, 0, 6, 0, 0, 0, 84, 0, 105, 116, 108, 101, 255, 0, 0, 0, 0, 0, 0,
+    0, 0, 0, 0, 0, 0, 0, 0, 0, 0, 0, 0, 0, 0, 0, 0, 0, 0, 0, 0, 0, 0, 0, 0, 0, 0, 0, 0, 0, 0, 0, 0, 0, 0, 0, 0,
+    0, 0, 0, 0, 0, 0, 0, 0, 0, 0, 0, 0, 0, 0, 0, 65, 0, 0, 0, 0, 0, 0, 0, 0, 0, 0, 0, 0, 0, 0, 0, 0, 0, 0, 0, 0,
+    0, 0, 0, 0, 0, 0, 0, 0, 0, 0, 0, 67, 0, 0, 0, 0, 0, 0, 0, 0, 0, 0, 0, 0, 0, 0, 0, 0, 0, 0, 0, 0, 0, 0, 0, 0,
+    0, 0, 0, 0, 0, 0, 0, 111, 46, 111, 106, 109, 0, 0, 0, 0, 0, 0, 0, 0, 0, 0, 0, 0, 0, 0, 0, 0, 0, 0, 0, 0, 0,
+    0, 0, 0, 0, 0, 0, 9, 0, 0, 0, 10, 0, 0, 0, 11, 0, 0, 0, 12, 0, 0, 0, 44, 1, 0, 0, 144, 1, 0, 0, 244, 1, 0,
+    0, 88, 2, 0, 0, 0, 0, 0, 0, 2, 0, 4, 0, 1, 0, 72, 0, 0, 0, 0, 0, 1, 0, 72, 0, 0, 0, 0, 0, 1, 0, 0, 0, 1, 0,
+    2, 0, 0, 0, 0, 0, 0, 0, 112, 66, 2, 0, 0, 0, 8, 0, 3, 0, 1, 0, 72, 0, 1, 0, 72, 0, 1, 0, 72, 0, 3, 0, 0, 0,
+    1, 0, 1, 0, 0, 0, 112, 67, 3, 0, 0, 0, 3, 0, 2, 0, 1, 0, 72, 2, 0, 0, 0, 0, 4, 0, 0, 0, 3, 0, 2, 0, 0, 0, 0,
+    0, 1, 0, 72, 3, 6, 0, 0, 0, 1, 0, 1, 0, 0, 0, 180, 66, 1, 2, 3]
+
+/-- non-vacuity of `read_spec` / `read_three_levels`: the sample is well-formed, reads into three levels — the empty
+first and third difficulties are kept — with the second difficulty's six notes at their integrated times -/
+example : wellFormed sampleOjn = true := by decide +kernel
+example : (readFile sampleOjn).toOption.map (fun o => o.levels.map (fun l => (l.notes.map (·.time), l.bpms.map (·.time))))
+    = some [([], [0]), ([0, 1000, 5000, 6333 + 1 / 3, 7666 + 2 / 3, 9000], [0, 3000, 9000, 12000]), ([], [0])] := by
+  decide +kernel
+
+/-- non-vacuity of `frame_encode`: an abstract package satisfying `WfRaw` -/
+example : WfRaw ⟨3, 4, 2, [1, 0, 72, 2, 0, 0, 0, 0]⟩ := by
+  refine ⟨by decide, by decide, by decide, by decide, by decide, by decide, by decide⟩
+
+/-- the header always carries exactly three package counts (one per difficulty) -/
+theorem three_counts (bs : List Nat) (hdr : List (String × MetaVal)) (h : specMeta bs = .ok hdr) :
+    (packageCounts hdr).length = 3 := by
+  unfold specMeta at h
+  have hnames := specMeta_names _ _ _ h
+  have hlook := lookupMeta_idx "package_count" hdr _ hnames 9 (by decide +kernel) (by decide +kernel)
+  obtain ⟨v, hv, hf⟩ := mapE_getElem? _ _ _ h 9 ("package_count", 64, 'i', 3, "list") (by decide +kernel)
+  unfold specField at hf
+  cases hr : readN (bs.take headerSize) 'i' 3 64 with
+  | error e => rw [show readN (bs.take headerSize) ("package_count", 64, 'i', 3, "list").2.2.1 _ _ = _ from hr] at hf
+               simp [bind, Except.bind] at hf
+  | ok f =>
+    rw [show readN (bs.take headerSize) ("package_count", 64, 'i', 3, "list").2.2.1 _ _ = _ from hr] at hf
+    simp only [bind, Except.bind, shapeVal] at hf
+    rw [if_neg (by decide)] at hf
+    have hf' : ("package_count", MetaVal.list f) = v := by simpa using hf
+    subst hf'
+    unfold packageCounts
+    rw [hlook, hv]
+    simp only [Option.map_some]
+    exact readN_ints _ _ _ _ hr
+
+theorem frameLevels_length : ∀ (counts : List Int) (q : List Nat) (lvls : List (List RawPkg)),
+    frameLevels counts q = some lvls → lvls.length = counts.length := by
+  intro counts
+  induction counts with
+  | nil => intro q lvls h; simp only [frameLevels, Option.some.injEq] at h; subst h; rfl
+  | cons c cs ih =>
+    intro q lvls h
+    simp only [frameLevels] at h
+    cases hf : frame c.toNat q with
+    | none => rw [hf] at h; cases h
+    | some r =>
+      obtain ⟨ps, q1⟩ := r
+      rw [hf] at h
+      simp only [] at h
+      cases hl : frameLevels cs q1 with
+      | none => rw [hl] at h; cases h
+      | some rl =>
+        rw [hl] at h
+        simp only [Option.some.injEq] at h
+        subst h
+        simp [ih q1 rl hl]
+
+/-- **each of the three difficulties**: a well-formed file reads into exactly three levels — one per package-count
+entry of the header, whatever the counts are (a count of 0 gives a level with no notes and the header tempo only;
+it is not dropped, and later difficulties keep their index) -/
+theorem read_three_levels (bs : List Nat) (h : wellFormed bs = true) (out : FileOut) (ho : readFile bs = .ok out) :
+    out.levels.length = 3 ∧ out.levels.length = (packageCounts out.header).length := by
+  rw [read_spec bs h] at ho
+  unfold specSet at ho
+  cases hS : specMeta bs with
+  | error e => rw [hS] at ho; simp [bind, Except.bind] at ho
+  | ok hdr =>
+    rw [hS] at ho
+    simp only [bind, Except.bind] at ho
+    cases hF : frameLevels (packageCounts hdr) (List.drop headerSize bs) with
+    | none => rw [hF] at ho; cases ho
+    | some lvls =>
+      cases hT : headerTempo hdr with
+      | none => rw [hF, hT] at ho; cases ho
+      | some q =>
+        rw [hF, hT] at ho
+        simp only [] at ho
+        cases hm : mapE (specLevel q) lvls with
+        | error e => rw [hm] at ho; cases ho
+        | ok outs =>
+          rw [hm] at ho
+          simp only [Except.ok.injEq] at ho
+          subst ho
+          have h3 := three_counts bs hdr hS
+          have hl := frameLevels_length _ _ _ hF
+          have hm' := mapE_length _ _ _ hm
+          simp only []
+          omega
 
 /-! ### the sweep before its repair (finding D10), kept as documentation -/
 
